@@ -30,6 +30,7 @@ class Mock:
         self.behaviour = behaviour
         self.body = body
         self.request = None
+        self.requests = []
         self.sock = socket.socket(socket.AF_INET, socket.SOCK_STREAM)
         self.sock.bind(("127.0.0.1", 0))
         self.port = self.sock.getsockname()[1]
@@ -43,10 +44,17 @@ class Mock:
         self.thread.start()
 
     def serve(self):
-        try:
-            conn, _ = self.sock.accept()
-        except OSError:
-            return
+        # every connection the client makes is answered (with the same behaviour) and recorded: a client that
+        # quietly asks again is seen
+        while True:
+            try:
+                conn, _ = self.sock.accept()
+            except OSError:
+                return
+            if not self.serve_one(conn):
+                return
+
+    def serve_one(self, conn):
         try:
             conn.settimeout(10)
             data = b""
@@ -56,7 +64,7 @@ class Mock:
                     break
                 data += chunk
             if not data.strip():
-                return          # the dummy connection of close(): nobody asked anything
+                return False    # the dummy connection of close(): nobody asked anything
             head, _, rest = data.partition(b"\r\n\r\n")
             lines = head.decode("latin-1").split("\r\n")
             headers = []
@@ -69,7 +77,10 @@ class Mock:
                 if not chunk:
                     break
                 rest += chunk
-            self.request = {"line": lines[0], "headers": headers, "body": rest.decode("utf-8", "replace")}
+            rq = {"line": lines[0], "headers": headers, "body": rest.decode("utf-8", "replace")}
+            self.requests.append(rq)
+            if self.request is None:
+                self.request = rq
             b = self.behaviour
             if b == "200json":
                 self.reply(conn, 200, "application/json", self.body)
@@ -79,6 +90,11 @@ class Mock:
                 # the genuine body with one Latin-1 byte inside a string: shaped like JSON, not UTF-8, so not JSON
                 raw = self.body.encode().replace(b'"', b'"caf\xe9 ', 1)
                 conn.sendall(("HTTP/1.1 200 X\r\nContent-Type: application/json\r\nContent-Length: %d\r\nConnection: close\r\n\r\n" % len(raw)).encode() + raw)
+            elif b == "200jsonthengarbage":
+                # a complete JSON value followed by something else: the BODY is not JSON
+                self.reply(conn, 200, "application/json", self.body + "\n<html><body>gateway banner</body></html>")
+            elif b == "200number":
+                self.reply(conn, 200, "text/plain", "404 page not found")
             elif b == "404json":
                 self.reply(conn, 404, "application/json", json.dumps({"errors": [{"message": "not here"}]}))
             elif b == "400text":
@@ -98,6 +114,7 @@ class Mock:
                 conn.close()
             except OSError:
                 pass
+        return True
 
     def reply(self, conn, status, ctype, body):
         b = body.encode()
@@ -106,7 +123,7 @@ class Mock:
     def close(self):
         if self.thread:
             # the client has exited: if it never connected, unblock accept() by a dummy connection
-            if self.request is None and self.thread.is_alive():
+            if self.thread.is_alive():
                 try:
                     socket.create_connection(("127.0.0.1", self.port), timeout=1).close()
                 except OSError:
@@ -238,6 +255,9 @@ def main(tier, replay=None, selftest=False):
             if req is not None:
                 problems.append("a request was sent although a --header argument must be refused")
         elif c["server"] != "refused":
+            if len(mock.requests) > 1:
+                problems.append("the endpoint received %d requests, the command makes exactly one (the later ones: %s)" % (
+                    len(mock.requests), [json.loads(r["body"]).get("operationName") if r["body"].startswith("{") else "?" for r in mock.requests[1:]]))
             if req is None:
                 problems.append("no request reached the server")
             else:
